@@ -172,3 +172,8 @@ func Ite(c bool, a, b int) int {
 	}
 	return b
 }
+
+// LenientFmt tells the executor that the text produced by fmt is irrelevant in
+// this harness (totality checks): operands it cannot format symbolically give
+// a placeholder instead of an inconclusive path.
+func LenientFmt(on bool) {}
